@@ -156,6 +156,16 @@ def run(ctx):
             mf2 = MassFunction(sigma_8=0.9, z=1.0, **kw)
             if not np.allclose(mf2.sigma / mf.sigma, 0.9 / 0.8 * mf2.growth_factor, rtol=1e-10):
                 viol("sigma-linearity", f"sigma(m) is not linear in sigma_8 and the growth factor (filter {filt})")
+            # the same configurations reached by updates of one instance whose sigma has been read at every step
+            mu = MassFunction(sigma_8=0.8, **kw)
+            base_u = np.array(mu.sigma)
+            for (s8u, zu) in ((0.9, 0.0), (0.9, 1.0), (0.6, 1.0), (0.8, 0.0), (1.1, 2.0)):
+                mu.update(sigma_8=s8u, z=zu)
+                want_u = s8u / 0.8 * float(np.atleast_1d(mu.growth.growth_factor(zu))[0]) * base_u
+                if not np.allclose(mu.sigma, want_u, rtol=1e-10, atol=0):
+                    viol("sigma-linearity/update-sequence", f"after update(sigma_8={s8u}, z={zu}) on an instance whose sigma had been read, sigma(m) differs from (sigma_8/0.8) D(z) sigma(m; 0.8, z=0) "
+                         f"by up to {float(np.max(np.abs(mu.sigma / want_u - 1))):.3g} (filter {filt})", {"filter_model": filt, "sigma_8": s8u, "z": zu})
+                    break
             # ... also where sigma is tiny (high redshift, cluster masses) or large (dwarf masses, high sigma_8)
             for (s8b, zb, lo, hi) in ((0.6, 25.0, 14.0, 16.0), (1.2, 0.0, 6.0, 8.0), (0.6, 40.0, 13.0, 15.5), (0.8, 12.0, 14.5, 16.0)):
                 if filt != "TopHat" and zb not in (25.0, 0.0):
